@@ -825,6 +825,14 @@ func (f *frame) transCall(x *CCall, env *Env) TV {
 		k := f.coerceTV(arg(1), ks)
 		d := sel(sel(vc.comp(env.st, compMdom(ks, vs), "(Array Int (Array "+ks+" Bool))"), m.T), k)
 		return TV{T: and(not(eq(m.T, "0")), d), S: "Bool"}
+	case "chancap":
+		// chancap(ch): the buffer size the channel was made with
+		need(1)
+		v := arg(0)
+		if _, ok := v.Ty.Underlying().(*types.Chan); !ok {
+			cfail("chancap() on non-channel")
+		}
+		return TV{T: "(chan_cap " + v.T + ")", S: "Int", Ty: types.Typ[types.Int]}
 	case "disjoint":
 		need(2)
 		a, b := arg(0), arg(1)
